@@ -11,6 +11,7 @@ PKG = "c08fx"
 
 SOURCE = '''
 import functools
+import inspect
 
 
 def deco(f):
@@ -22,6 +23,15 @@ def deco(f):
 
 def deco2(f):
     return deco(deco(f))
+
+
+def sigdeco(f):
+    """functools.wraps AND the wrapper publishes its own __signature__ (as signature-preserving decorator libraries do)"""
+    @functools.wraps(f)
+    def w(*a, **k):
+        return f(*a, **k)
+    w.__signature__ = inspect.signature(f)
+    return w
 
 
 def nowraps(f):
@@ -91,6 +101,26 @@ def dclass(a):
 @deco
 @keep("dclass_over_wraps")
 def dclass_over_wraps(a):
+    return a
+
+
+@sigdeco
+@keep("sig1")
+def sig1(a):
+    return a
+
+
+@sigdeco
+@sigdeco
+@keep("sig2")
+def sig2(a):
+    return a
+
+
+@deco
+@sigdeco
+@keep("sig_under_plain")
+def sig_under_plain(a):
     return a
 
 
@@ -172,6 +202,23 @@ class K:
     def __call__(self, x):
         return x
 
+    @sigdeco
+    @keep("K.sig_meth")
+    def sig_meth(self, x):
+        return x
+
+    @classmethod
+    @sigdeco
+    @keep("K.sig_cm")
+    def sig_cm(cls, x):
+        return x
+
+    @staticmethod
+    @sigdeco
+    @keep("K.sig_sm")
+    def sig_sm(x):
+        return x
+
     @functools.lru_cache(maxsize=None)
     @keep("K.lru_meth")
     def lru_meth(self, x):
@@ -217,6 +264,20 @@ class K:
 
 class Sub(K):
     pass
+
+
+# classes whose qualnames also exist in c08fx.other (another module of the package): different classes
+class User:
+    pass
+
+
+class Account:
+    pass
+
+
+class Ledger:
+    class Entry:
+        pass
 
 
 # user classes that merely share the NAME of an entry of encoding._HIDDEN_BUILTIN_TYPES (sentinel classes);
@@ -376,6 +437,12 @@ FUNCS = {
     "K.dc_sm": (ORIG["K.dc_sm"], True, "wrapper object (decorator class)"),
     "na\u00efve": (na\u00efve, True, "non-ASCII name"),
     "Caf\u00e9.m\u00e9thode": (Caf\u00e9.__dict__["m\u00e9thode"], True, "non-ASCII name"),
+    "sig1": (ORIG["sig1"], True, "wraps + __signature__"),
+    "sig2": (ORIG["sig2"], True, "wraps + __signature__"),
+    "sig_under_plain": (ORIG["sig_under_plain"], True, "wraps + __signature__"),
+    "K.sig_meth": (ORIG["K.sig_meth"], True, "wraps + __signature__"),
+    "K.sig_cm": (ORIG["K.sig_cm"], True, "wraps + __signature__"),
+    "K.sig_sm": (ORIG["K.sig_sm"], True, "wraps + __signature__"),
     "K.meth": (K.__dict__["meth"], True, "method"),
     "K.__call__": (K.__dict__["__call__"], True, "method"),
     "K.cm": (K.__dict__["cm"].__func__, True, "classmethod"),
@@ -404,7 +471,8 @@ FUNCS = {
 
 CLASSES = {
     "K": (K, True), "K.Inner": (K.Inner, True), "K.Inner.Deep": (K.Inner.Deep, True), "Sub": (Sub, True),
-    "Plain": (Plain, True),
+    "Plain": (Plain, True), "User": (User, True), "Account": (Account, True), "Ledger": (Ledger, True),
+    "Ledger.Entry": (Ledger.Entry, True),
     "ArgsTypes": (ArgsTypes, True), "ArgsEmpty": (ArgsEmpty, True), "ArgsNames": (ArgsNames, True), "ArgsText": (ArgsText, True),
     "HasOrigin": (HasOrigin, True), "OriginAndArgs": (OriginAndArgs, True), "Chatty": (Chatty, True), "Caf\u00e9": (Caf\u00e9, True),
     "NoneType": (NoneType, True), "NotImplementedType": (NotImplementedType, True), "mappingproxy": (mappingproxy, True),
@@ -412,6 +480,51 @@ CLASSES = {
     "LocalCls": (LocalCls, False), "Rebound": (ReboundOrig, False), "Gone": (GoneOrig, False),
     "NotAType": (NotATypeOrig, False), "FarAway": (FarAway, False),
 }
+'''
+
+
+OTHER_SOURCE = '''
+"""Second module of the fixture package: classes (and a function) with the SAME qualnames as c08fx.mod's."""
+
+
+class User:
+    pass
+
+
+class Account:
+    pass
+
+
+class Plain:
+    pass
+
+
+class K:
+    def meth(self, x):
+        return x
+
+    class Inner:
+        def im(self, x):
+            return x
+
+        class Deep:
+            pass
+
+
+class Ledger:
+    class Entry:
+        pass
+
+
+def mfunc(a, b=1):
+    return a
+
+
+CLASSES = {"User": (User, True), "Account": (Account, True), "Plain": (Plain, True), "K": (K, True),
+           "K.Inner": (K.Inner, True), "K.Inner.Deep": (K.Inner.Deep, True), "Ledger.Entry": (Ledger.Entry, True)}
+FUNCS = {"other.mfunc": (mfunc, True, "same qualname in another module"),
+         "other.K.meth": (K.__dict__["meth"], True, "same qualname in another module"),
+         "other.K.Inner.im": (K.Inner.__dict__["im"], True, "same qualname in another module")}
 '''
 
 
@@ -423,12 +536,16 @@ def build(workdir: str):
         f.write("")
     with open(os.path.join(d, "mod.py"), "w", encoding="utf-8") as f:
         f.write(SOURCE)
+    with open(os.path.join(d, "other.py"), "w", encoding="utf-8") as f:
+        f.write(OTHER_SOURCE)
     if workdir not in sys.path:
         sys.path.insert(0, workdir)
     for k in [k for k in sys.modules if k == PKG or k.startswith(PKG + ".")]:
         del sys.modules[k]
     importlib.invalidate_caches()
-    return importlib.import_module(PKG + ".mod")
+    mod = importlib.import_module(PKG + ".mod")
+    mod.OTHER = importlib.import_module(PKG + ".other")      # survives importlib.reload(mod): reload keeps unrelated names
+    return mod
 
 
 def teardown(workdir: str):
